@@ -1,5 +1,5 @@
 (* Facts about Core/CatchSched.v (CatchScheduler over the virtual-time model). *)
-From RxVerif Require Import Base.Prelude Core.VTime Core.VTimeFacts Core.CatchSched.
+From RxVerif Require Import Base.Prelude Core.VTime Core.VTimeFacts Core.Periodic Core.PeriodicFacts Core.CatchSched.
 
 Local Open Scope Z_scope.
 
@@ -459,3 +459,32 @@ Theorem catch_history_good c fuel h c0 hs :
 Proof.
   intros H1 H2. apply run_good; [apply good_init | apply catch_history_wr; assumption].
 Qed.
+
+(* the wrapped periodic action: a raising call becomes a handled call *)
+Lemma plookup_cwrap h f z : plookup (cwrap_tab h f) z = cwrap_pres h (plookup f z).
+Proof.
+  destruct f as [l d]. unfold plookup, cwrap_tab; simpl.
+  induction l as [|[k v] t IH]; simpl; [reflexivity|]. destruct (k =? z); auto.
+Qed.
+
+Lemma cwrap_raise_not_next h f z ns e :
+  plookup f z = PRaise ns e ->
+  plookup (cwrap_tab h f) z = PHandled ns e (h e).
+Proof. intro H. rewrite plookup_cwrap, H. reflexivity. Qed.
+
+(* a periodic action is never called after its subscription was disposed, also through a CatchScheduler *)
+Theorem catch_no_call_after_dispose c fuel h c0 hs :
+  no_tick_after_dispose (log (state_of (run_catch c fuel h (init c0) hs))).
+Proof. unfold run_catch. apply no_tick_after_dispose_run. Qed.
+
+(* ---- witnesses used in Props/C42.v ------------------------------------ *)
+
+(* handler accepts 1, rejects 2 *)
+Definition hv : Z -> bool := verdict [(1, true); (2, false)].
+
+Definition ex_c42 : list tcmd :=
+  [ TDo (SSched (Abs 1) 0 [SSched (Rel 1) 1 [SNote 7; SRaise 1; SNote 8]; SNote 9]);
+    TDo (SSched (Abs 5) 2 [SSched Now 3 [SRaise 2]]);
+    TDo (SSched (Abs 6) 4 []);
+    TStart ].
+
